@@ -26,7 +26,7 @@ INERT = {
     "jproperties", "google_auth_oauthlib", "boto3", "aiodns", "rich", "humanize", "janus",
     "nest_asyncio", "dateutil", "jinja2", "aiohttp_jinja2", "sass", "plotly", "pandas", "dictdiffer",
     "googlecloudprofiler", "pythonjsonlogger", "uvloop", "gidgethub", "zulip", "tabulate", "typer", "azure_identity",
-    "aiorwlock", "psutil", "aiomonitor", "pyspark", "py4j", "bokeh", "scipy", "avro", "parsimonious", "deprecated",
+    "aiorwlock", "psutil", "aiomonitor", "pyspark", "py4j", "bokeh", "scipy", "avro", "deprecated",
     "regex", "IPython", "ipykernel", "tqdm", "hailtop_test_stub", "frozendict", "git", "kubernetes", "colorlog",
     "async_timeout", "toml", "tomllib_stub", "protobuf", "grpc", "oauthlib", "requests_oauthlib", "certifi",
     "pyfaidx", "secretstorage", "keyring",
@@ -119,14 +119,14 @@ def _cls_getattr(self, name):
 class _Finder(importlib.abc.MetaPathFinder, importlib.abc.Loader):
     def find_spec(self, fullname, path=None, target=None):
         top = fullname.split(".")[0]
-        if fullname == "hailtop.version":
+        if fullname in ("hailtop.version", "hail.version"):
             return importlib.machinery.ModuleSpec(fullname, self)
         if top in INERT:
             return importlib.machinery.ModuleSpec(fullname, self, is_package=True)
         return None
 
     def create_module(self, spec):
-        if spec.name == "hailtop.version":
+        if spec.name in ("hailtop.version", "hail.version"):
             m = types.ModuleType(spec.name)
             m.__version__ = "0.2.133-verif"
             m.__pip_version__ = "0.2.133"
